@@ -2,7 +2,7 @@
     Only statements, closed by [exact], with their assumptions printed and pinned. *)
 From Coq Require Import NArith List Bool.
 From DL Require Import Lib.Bytes Lua.Syntax Lua.Resolve Model.Rename Proof.RenameStream Proof.RenameInv
-  Proof.RenameSelf Proof.ResolveFacts Proof.ResolveIdem Proof.RenameExamples.
+  Proof.RenameSelf Proof.RenameGlobals Proof.ResolveFacts Proof.ResolveIdem Proof.RenameExamples.
 Import ListNotations.
 Open Scope N_scope.
 
@@ -83,6 +83,34 @@ Print Assumptions C09_generated_disjoint_from_kept_refuted.
 Check C09_generated_disjoint_from_kept_refuted : forall avoid0, ~ In self avoid0 ->
   exists ops, let s := run avoid0 ops in
     incl (keeps ops) avoid0 /\ exists n, In n (live_gen s) /\ In n (live_kept s).
+
+(** the configured avoid set is the union over the `globals` list, whatever its order: a listed name is
+    avoided wherever "$default" / "$roblox" stand in the list and however often they are repeated;
+    with C09_scope_invariant (avoid0 := configured globals ++ ...) no generated name is a listed global *)
+Theorem C09_configured_globals_union : forall dflt roblox l x,
+  In x (configured_globals dflt roblox l) <->
+  In x dflt \/ exists e, In e l /\ In x (expand_entry dflt roblox e).
+Proof. exact configured_globals_union. Qed.
+Print Assumptions C09_configured_globals_union.
+Check C09_configured_globals_union : forall dflt roblox l x,
+  In x (configured_globals dflt roblox l) <->
+  In x dflt \/ exists e, In e l /\ In x (expand_entry dflt roblox e).
+
+Theorem C09_configured_globals_order_independent : forall dflt roblox l l',
+  (forall e, In e l <-> In e l') ->
+  forall x, In x (configured_globals dflt roblox l) <-> In x (configured_globals dflt roblox l').
+Proof. exact configured_globals_order_independent. Qed.
+Print Assumptions C09_configured_globals_order_independent.
+Check C09_configured_globals_order_independent : forall dflt roblox l l',
+  (forall e, In e l <-> In e l') ->
+  forall x, In x (configured_globals dflt roblox l) <-> In x (configured_globals dflt roblox l').
+
+Theorem C09_listed_name_avoided : forall dflt roblox l extra x,
+  In (GName x) l -> In x (avoid (init (configured_globals dflt roblox l ++ extra))).
+Proof. exact listed_name_avoided. Qed.
+Print Assumptions C09_listed_name_avoided.
+Check C09_listed_name_avoided : forall dflt roblox l extra x,
+  In (GName x) l -> In x (avoid (init (configured_globals dflt roblox l ++ extra))).
 
 (** the dictionaries resolve like scopes *)
 Theorem C09_lookup_after_add : forall s real obf reuse,
